@@ -359,7 +359,7 @@ func (c *Conc) ReportFiles() map[string]string {
 // WithObs returns a copy of the bookkeeping state b whose resolver part is the observation o.
 func WithObs(b *PState, o *Obs) *PState {
 	n := *b
-	n.Meth, n.Helpers, n.Imports, n.Warn, n.Ok, n.Enc = o.Meth, o.Helpers, o.Imports, o.Warn, o.Ok, o.Enc
+	n.Meth, n.Root, n.Helpers, n.Imports, n.Warn, n.Ok, n.Enc = o.Meth, o.Root, o.Helpers, o.Imports, o.Warn, o.Ok, o.Enc
 	n.Gen = nil
 	return &n
 }
@@ -499,6 +499,11 @@ func (s *PState) Book(a PAction, typeOf func(string) string) (*PState, bool) {
 			return nil, false
 		}
 		n.Dirty = maxDirty(s.Dirty, "go")
+	case "EditRoot":
+		if a.Rt == "" || s.root() == a.Rt || s.root() == "none" {
+			return nil, false
+		}
+		n.Dirty = maxDirty(s.Dirty, "go")
 	case "AddField":
 		if live(a.P) {
 			return nil, false
@@ -545,6 +550,13 @@ func (s *PState) Book(a PAction, typeOf func(string) string) (*PState, bool) {
 	return &n, true
 }
 
+func (s *PState) root() string {
+	if s.Root == "" {
+		return "gen"
+	}
+	return s.Root
+}
+
 func pairType(p string) string { t, _ := splitPair(p); return t }
 
 // applyEdit performs user action a on the concrete project in state cur.
@@ -564,6 +576,8 @@ func applyEdit(c *Conc, cur, next *PState, a PAction) error {
 		return c.SetMethod(a.F, a.P, m)
 	case "Resave":
 		return c.Resave(a.F, a.En)
+	case "EditRoot":
+		return c.SetRoot(a.Rt)
 	case "AddField", "RemoveField", "RenameField", "MoveField", "RemoveType":
 		return c.WriteSchema(next)
 	}
@@ -572,6 +586,9 @@ func applyEdit(c *Conc, cur, next *PState, a PAction) error {
 
 // unknownTokens: the projection met text it cannot map back (damaged user code): the history cannot be continued.
 func unknownTokens(o *Obs) bool {
+	if strings.HasPrefix(o.Root, "?") {
+		return true
+	}
 	for _, ms := range o.Meth {
 		for _, m := range ms {
 			if strings.HasPrefix(m.Body, "?") || strings.HasPrefix(m.Doc, "?") {
@@ -612,7 +629,7 @@ func addsOnly(s *PState) bool {
 			return false
 		}
 	}
-	return true
+	return s.root() == "gen"
 }
 
 // exec performs one tour edge as an action on the real tree; returns the new current state (nil = stop this history).
@@ -663,7 +680,7 @@ func (r *Replayer) exec(c *Conc, init string, e *REdge, path []*REdge, cur *PSta
 		post = WithObs(book, obs)
 	} else { // a file does not parse: the resolver part cannot be observed
 		b := *book
-		b.Meth, b.Helpers, b.Imports, b.Warn, b.Ok, b.Gen, b.Enc = cur.Meth, cur.Helpers, cur.Imports, cur.Warn, false, nil, cur.Enc
+		b.Meth, b.Root, b.Helpers, b.Imports, b.Warn, b.Ok, b.Gen, b.Enc = cur.Meth, cur.Root, cur.Helpers, cur.Imports, cur.Warn, false, nil, cur.Enc
 		post = &b
 	}
 	if a.Name == "Generate" && pre.Comp == "yes" && obs.Ok {
@@ -812,8 +829,8 @@ func stateJSON(s *PState) map[string]any {
 	if comp == "" {
 		comp = "unk"
 	}
-	return map[string]any{"schema": s.Schema, "texists": s.Texists, "cfg": map[string]any{"rl": s.Cfg.Rl, "el": s.Cfg.El},
-		"meth": meth, "helpers": sets(s.Helpers), "imports": sets(s.Imports), "warn": warn, "ok": s.Ok, "comp": comp, "dirty": s.Dirty, "enc": encOf(s)}
+	return map[string]any{"schema": s.Schema, "texists": s.Texists, "cfg": map[string]any{"rl": s.Cfg.Rl, "el": s.Cfg.El, "ab": s.Cfg.ab()},
+		"meth": meth, "root": s.root(), "helpers": sets(s.Helpers), "imports": sets(s.Imports), "warn": warn, "ok": s.Ok, "comp": comp, "dirty": s.Dirty, "enc": encOf(s)}
 }
 
 func encOf(s *PState) map[string]string {
@@ -828,7 +845,7 @@ func encOf(s *PState) map[string]string {
 }
 
 func actionJSON(a PAction) map[string]any {
-	o := map[string]any{"name": a.Name, "f": a.F, "p": a.P, "q": a.Q, "t": a.T, "h": a.H, "i": a.I, "sf": a.Sf, "en": a.En}
+	o := map[string]any{"name": a.Name, "f": a.F, "p": a.P, "q": a.Q, "t": a.T, "h": a.H, "i": a.I, "sf": a.Sf, "en": a.En, "rt": a.Rt}
 	e := map[string]any{"body": "-", "doc": "-", "named": false}
 	if a.E != nil {
 		e = map[string]any{"body": a.E.Body, "doc": a.E.Doc, "named": a.E.Named}
@@ -969,7 +986,7 @@ func (g *Graph) SampleTries(n int, seed int64) (map[string]*Trie, int) {
 	// stratify: stable partition putting the first edge of every class in front
 	classOf := func(c cand) string {
 		st := c.e.SSt
-		return st.Cfg.Rl + "/" + st.Cfg.El + "|" + st.Dirty + "|" + strings.Join(c.e.A.Devs, ",")
+		return st.Cfg.Rl + "/" + st.Cfg.El + "/" + st.Cfg.ab() + "|" + st.Dirty + "|" + strings.Join(c.e.A.Devs, ",")
 	}
 	seenClass := map[string]bool{}
 	var front, back []cand
